@@ -199,10 +199,7 @@ func c06History(c *vc.Ctx, idx int) {
 	paidSeen := map[uint64]bool{}
 	canceledSeen := map[uint64]bool{}
 	abandoned, restarts, forced := 0, 0, 0
-	burstAt := 18 + idx%7
-	var burstIDs []uint64
-	var burstProc *procM
-	burstFinal := false
+	burst := &wdBurst{at: 18 + idx%7, n: 10, refunds: 5}
 	for blk := 0; blk < cfg.Blocks && !lh.failed; blk++ {
 		if !b.refreshGroup() {
 			return
@@ -210,54 +207,7 @@ func c06History(c *vc.Ctx, idx int) {
 		// ---- directed burst: ten withdrawals are requested, processed as one batch, mined, voted and finalised, and the
 		// block that finalises them also refunds a handful of undecodable ones: more than 8 'paid' are due together with
 		// 'refund' notices, i.e. the two kinds compete for the shared cap ----
-		switch blk - burstAt {
-		case 0:
-			burstIDs = nil
-			for k := 0; k < 10; k++ {
-				addr, _ := world.P2WPKH(world.Derive(c.Seed, "c06burst", int(wm.next)*7+idx)[:20], regtest)
-				b.bridgeReq.Withdraws = append(b.bridgeReq.Withdraws, &goattypes.WithdrawalRequest{Id: wm.next, Amount: 60_000, TxPrice: 40, Address: addr})
-				burstIDs = append(burstIDs, wm.next)
-				wm.next++
-			}
-			lh.logf("EL: burst of ten withdrawals")
-		case 1:
-			if op := wm.processOp(burstIDs, ""); op != nil {
-				b.ops = append(b.ops, op)
-			}
-		case 2:
-			for _, p := range wm.procs {
-				if !p.Done && len(p.Ids) == len(burstIDs) && len(burstIDs) > 0 && p.Ids[0] == burstIDs[0] {
-					burstProc = p
-					cd := p.Cands[0]
-					var tx wireMsgTx
-					if err := tx.DeserializeNoWitness(bytes.NewReader(cd.Raw)); err == nil {
-						blkb := b.bc.Mine([]*wireMsgTx{b.bc.CoinbaseTx(b.bc.Tip + 1), b.bc.FillerTx(), &tx})
-						cd.Height, cd.Index = blkb.Height, 2
-					}
-				}
-			}
-			if op := b.hashesOp("next"); op != nil {
-				b.ops = append(b.ops, op)
-			}
-		case 3, 4, 5, 6, 7, 8, 9, 10, 11, 12:
-			if burstProc != nil && !burstProc.Done && burstProc.Cands[0].Height != 0 {
-				if burstProc.Cands[0].Height > b.votedTip {
-					if op := b.hashesOp("next"); op != nil {
-						b.ops = append(b.ops, op)
-					}
-				} else if !burstFinal {
-					if op := wm.finalizeOp(burstProc, burstProc.Cands[0], ""); op != nil {
-						b.ops = append(b.ops, op)
-						burstFinal = true
-						for k := 0; k < 5; k++ {
-							b.bridgeReq.Withdraws = append(b.bridgeReq.Withdraws, &goattypes.WithdrawalRequest{Id: wm.next, Amount: 40_000, TxPrice: 3, Address: fmt.Sprintf("junk-burst-%d", wm.next)})
-							wm.next++
-						}
-						lh.logf("finalising the ten-withdrawal batch together with five refunds")
-					}
-				}
-			}
-		}
+		burst.step(b, wm, blk, c.Seed, idx)
 		if blk%2 == 0 {
 			c03Gen(b, blk, muts)
 			c05Gen(wm, blk, cfg.Blocks, idx, addrPool)
